@@ -28,7 +28,7 @@ def run(ctx):
     lean_ok = C.lean_build_and_audit(ctx, MODULE, theorems)
     ctx.assumptions += [
         "zero-padded DIFAT and unmarked DIFAT sectors need > 109 FAT sectors (>= 7 MB in V3): injected only in the thorough tier; in quick they are covered by the proof of C16_sub and the component lemmas only",
-        "valid files used as bases are the library's own images (snapshots inside API histories); arbitrary foreign layouts are C04's generator",
+        "valid files used as bases are the library's own images (snapshots inside API histories) and synthesised foreign layouts (C04's generator)",
     ]
     if not (lean_ok and harness_ok):
         return C.finish(ctx)
@@ -36,6 +36,12 @@ def run(ctx):
     try:
         snapdir, devdir, mutdir = R.scratch(ctx, "snaps"), R.scratch(ctx, "dev"), R.scratch(ctx, "mut")
         bases = R.snapshots(ctx, snapdir, ctx.seed, 50 if quick else 400, extra=["--meta-heavy"] if False else [])
+        # foreign layouts (C04's generator): sectors anywhere, FAT not in sector 0, last sector linked to
+        # sector 0 with the FAT exactly covering the file, balanced red-black trees, gaps
+        laydir = R.scratch(ctx, "lay")
+        C.harness(["layout", "--seed", ctx.seed + 21, "--count", 60 if quick else 1500, "--outdir", laydir])
+        layouts = sorted(os.path.join(laydir, f) for f in os.listdir(laydir) if f.endswith(".cfb") and "_after" not in f)
+        bases = layouts[:25 if quick else 300] + bases
         blist, dlist, mlist = ctx.path("bases.list"), ctx.path("dev.list"), ctx.path("mut.list")
         R.write_list(blist, bases[: 80 if quick else 2000])
         rc, out = C.harness(["deviate", "--seed", ctx.seed, "--bases", blist, "--outdir", devdir, "--combos", 3 if quick else 10, "--list", dlist])
@@ -51,7 +57,7 @@ def run(ctx):
         # part (a): every image of the valid / deviated / malformed families, both modes, vs the model;
         # whenever strict accepts, both dumps must be equal
         C.harness(["mutate", "--seed", ctx.seed + 5, "--bases", blist, "--outdir", mutdir, "--count", 1500 if quick else 100000, "--list", mlist])
-        files = bases + open(dlist).read().split() + open(mlist).read().split()
+        files = bases + layouts[25 if quick else 300:] + open(dlist).read().split() + open(mlist).read().split()
         ops, imp, mod = R.run_raw(ctx, files, "c16")
         strict_ok = 0
         for i in range(0, len(ops) - 1, 2):
